@@ -297,6 +297,9 @@ func genC05(g engine.G) *engine.Case {
 	}
 	b.ShuffleInputs()
 	sc = b.Sc
+	if g.Pct(8) {
+		sc = engine.GenWide(g, o)
+	}
 	return &engine.Case{Sc: sc, Reps: 10}
 }
 
